@@ -174,6 +174,19 @@ class C13(RebuildProp):
                     rng.shuffle(c)
                 return c
             out.append(self.scen(rng, P, v, pick(rng, P), cands, route="cli" if k % 7 == 0 else "lib"))
+        # the destination given as "." / "./" (working directory), single-file and directory torrents
+        for v in (1, 2, 3):
+            for dot in (".", "./"):
+                for tr in (("S1", (2 * B + 1,)), ("D2", (B + 5, 2 * B))):
+                    out.append(self.scen(rng, B, v, tr, lambda fi, f: [self.cand(rng, "intact", search=0)],
+                                         nsearch=1, dest_dot=dot, rel_paths=False))
+        # two entries with the same file name and identical bytes, one copy in the search directory
+        for v in (1, 2, 3):
+            t = mk_tree("DD", (B + 7, B + 7, 3 * B), modes=["same", "same", "rand"])
+            for fi, f in enumerate(t["files"]):
+                f["cands"] = [dict(self.cand(rng, "intact", search=0), shared=(fi == 1))]
+                f["dest_pre"] = "absent"
+            out.append({"version": v, "P": B, "tree": t, "nsearch": 1, "unrelated": 1, "clauses": list(self.clauses)})
         # batches of two metafiles in one metafile directory; both torrents contain files with the
         # same names ("a", "b"), so each one's copies are same-named decoys for the other
         for k in range(60 if tier == "thorough" else 18):
